@@ -13,7 +13,7 @@ CLAIMED = {
          "Exploration: all 65536 (month, day) byte pairs for 10 year classes, all days of the 400-year cycle at fixed and random eras with 4 times each, every day of years i32::MIN/MAX, plus proptest-generated valid tuples, single-field perturbations, and (date, successor) / random pairs. Accept/reject, error class (specific variant for single defects), exact Unix time, both round trips, second 60 semantics, strict monotonicity and Ord agreement are asserted. Complete per factor, sampled across factors.",
          "Trusts O-cal (self-tested). Specific error variant only asserted for single-defect inputs.", "DESIGN.md §5 C02"),
  'C16': ("enumeration of k*1e9+e boundary counts + proptest over i128 / offsets, against a truncating-division reference split; constructor agreement (differential between the total-nanoseconds and (seconds, nanoseconds) constructors)",
-         "Exploration: boundary enumeration (multiples of 1e9 +-2 around 0, the range ends, i64 and i128 extremes) and a proptest mixture over all i128 x i32 offsets; split, recombination, refusal boundaries and equality with the (seconds, nanoseconds) constructors in every field; invalid nanosecond arguments through new/find/find_n.",
+         "Exploration: boundary enumeration (multiples of 1e9 +-2 around 0, the range ends, i64 and i128 extremes) and a proptest mixture over all i128 x i32 offsets; split, recombination, refusal boundaries and equality with the (seconds, nanoseconds) constructors in every field (incl. flag and designation) on nine zone shapes per count (one type; transitions around the count; one listed type under a fixed / DST rule of other types; rule-less tables ending before / at / after the count, where both must refuse alike); invalid nanosecond arguments through new/find/find_n.",
          "Reference split written with truncating / and % plus fix-up.", "DESIGN.md §5 C16"),
  'C18': ("proptest over date-times x offsets (full i32) + enumeration of 16k offsets, checked by an independent strict reader of the text form (round trip text -> fields/offset)",
          "Exploration: every offset in -7200..=7200 and 8000 offsets around +-100 h, +-1000 h and the i32 extremes on 4 base date-times (both constructors), plus a proptest mixture of years (full i32), seconds 0..60, nanoseconds and offsets; the rendered text must match the documented shape exactly and read back to the same fields, nanoseconds and offset.",
@@ -25,13 +25,13 @@ CLAIMED = {
          "Exploration, exhaustive for the stated quotient: every (start, end) notation pair x every d = k*86400+e within the windows is decided by the constructor and by a brute-force evaluation of the three comparisons over a full 400-year cycle; each d is realised through random time/offset splits. Plus offset/time window edges (specific errors) and day-constructor bounds.",
          "Tie-tolerant reading of 'never change sign' (pinned by the crate's own unit test); dependence on times/offsets only through d is itself sampled via random splits.", "DESIGN.md §5 C11"),
  'C12': ("proptest over valid leap tables x probe zones (transition at/around every record) against a sequential leap model; forward switch instant and search-reported instant compared (differential between the crate's two conversion routines and the model)",
-         "Exploration: for generated leap tables (positive/negative/mixed, minimal spacing, real table) a probe zone with one transition at count T reveals both private conversions; forward switch = model u_T, monotone over a +-10 s window, the gap reported by the search is exactly at the forward switch, adjoining local times resolve to single instants.",
+         "Exploration: for generated leap tables (positive/negative/mixed, minimal spacing, real table) a probe zone with one transition at count T reveals both private conversions; forward switch = model u_T, monotone over a +-10 s window, the gap reported by the search is exactly at the forward switch, adjoining local times resolve to single instants; one case in eight moves the table before the epoch (refused by the constructor and counted; if accepted, the same model applies).",
          "O-leap model written from the property text; conversions observed through the public API only.", "DESIGN.md §5 C12"),
  'C13': ("proptest: valid-by-construction zones + exactly one of 10 defect classes, random multi-defect tuples, leap-spacing enumeration up to i64::MAX, byte-exhaustive designation enumeration; validity-predicate oracle; owned vs borrowed differential",
          "Exploration: generated valid zones must be accepted by both constructors and give back their parts; each single defect must be refused with its specific error; multi-defect tuples must be refused with one of the violated clauses' errors; both constructors always agree. LocalTimeType::new: every byte at every position for lengths 3..7, lengths 0..10, offset i32::MIN.",
          "Validity predicate transcribed from the property; three unspecified corners (rule cannot be evaluated at the last transition) carry no Ok/Err claim.", "DESIGN.md §5 C13"),
  'C03': ("bounded-exhaustive (table length x query rank x trailer) + proptest over valid zones (incl. zic-aligned and leap-second zones) + big tables, against a linear-scan timeline model (returned type compared by value: offset, flag, designation)",
-         "Exploration: complete for the hand-rolled binary search over all table lengths 0..=256 (thorough 600) x every rank x 3 trailers; random valid zones anywhere in i64 queried at every transition -1/0/+1 on both time scales and extremes; tables up to 2.6e5 entries. The returned type must equal the expected slot's type (which of several equal slots is returned is only counted), errors by kind, from_timespec fields = O-cal(instant+offset); the side entrances (from_total_nanoseconds, projections from UTC and from a same-offset type, and find_current_local_time_type on zones built around the clock reading, bracketed by the harness's own clock readings) must give the same answer.",
+         "Exploration: complete for the hand-rolled binary search over all table lengths 0..=256 (thorough 600) x every rank x 3 trailers; random valid zones anywhere in i64 queried at every transition -1/0/+1 on both time scales and extremes; tables up to 2.6e5 entries. The returned type must equal the expected slot's type (which of several equal slots is returned is only counted), errors by kind, from_timespec fields = O-cal(instant+offset); the side entrances (from_total_nanoseconds, projections from UTC and from a same-offset type, and find_current_local_time_type on zones built around the clock reading, bracketed by the harness's own clock readings) must give the same answer; every zone that can be written as a TZif file (v1 and v2/v3, independent writer) is looked up again through TimeZone::from_tz_data with the same expected answers.",
          "O-zone/O-leap/O-rule models; leap zones within 2^32 s of the i64 limits and 'overlapping' rules carry no claim.", "DESIGN.md §5 C03"),
  'C05': ("proptest over valid zones of all shapes (incl. dense, leap-second, zic-aligned zones) x model-derived local times; two oracles: timeline model and round trip through the crate's own forward lookup (metamorphic/inverse relation)",
          "Exploration: for each generated zone ~48 local times placed on every event's two clocks +- seconds/hours, New Year, random and second-60 variants; the valid results must equal, in order and with their types, the instants at which the zone's clock shows that time (model), convert back through the forward lookup to the searched fields, be complete and duplicate-free w.r.t. the forward lookup, and be unique() exactly when single - through the allocating search and through find_n with one buffer kept across the searches of a case (still holding the previous result).",
@@ -58,7 +58,7 @@ CLAIMED = {
          "Exploration: libFuzzer campaigns from committed seed corpora with a fixed number of runs on three targets whose bodies also run the C08 reference decoding, the C09 recogniser and the owned-vs-borrowed constructor comparison; coverage-independent enumeration of every truncation point and every hostile header count of all 894 real files and byte flips of a sample; random structured API arguments biased to integer extremes; every public query on every accepted zone, incl. a grid of invalid calendar fields through find / find_n / DateTime::new / UtcDateTime::new (an Ok there is reported like a panic). A panic, overflow trap, out-of-bounds, abort, or heap use above 16*len+4 KiB is a violation. Run with overflow checks/debug assertions on and (structured half) off.",
          "No 32-bit target available; libFuzzer campaigns are only approximately reproducible from the seed (the saved artifact is the reproducible unit); time-outs are inconclusive.", "DESIGN.md §5 C07"),
  'C10': ("differential testing against two independent implementations (glibc localtime_r, CPython zoneinfo) on every file of the vendored tzdata snapshot: generated query lists (every transition -1/0/+1, random and footer-governed instants, local times around transitions) answered by tz-rs and by reference servers reading the same bytes; random TZ strings vs glibc's parser",
-         "Exploration: (offset, abbreviation) at every recorded transition -1/0/+1, random instants 1900-2500 and footer-governed instants of all 447 main-tree files vs glibc and zoneinfo, and of all 447 right/ files vs glibc (through the leap model); isdst and broken-down fields vs glibc; mktime instant sets for local times within 3 h of every transition (main tree) vs the sets implied by both references, and candidate-instant membership around every post-1972 transition of the right/ tree vs glibc; generated TZ strings vs glibc's TZ-environment parser inside the domain where glibc is itself right.",
+         "Exploration: (offset, abbreviation) at every recorded transition -1/0/+1, random instants 1900-2500, the far future tied to the compared years by the 400-year period (rule instants of 2040/2101 shifted by up to 5e6 cycles) and footer-governed instants of all 447 main-tree files vs glibc and zoneinfo, and of all 447 right/ files vs glibc (through the leap model); isdst and broken-down fields vs glibc; mktime instant sets for local times within 3 h of every transition (main tree) vs the sets implied by both references, and candidate-instant membership around every post-1972 transition of the right/ tree vs glibc; generated TZ strings vs glibc's TZ-environment parser inside the domain where glibc is itself right.",
          "Agreement is with glibc and CPython as installed, on tzdata 2025b as vendored; rule-less files after their last transition (as recorded in the file, read by the independent RFC 8536 reader) are excluded (tz-rs must answer NoAvailableLocalTimeType there).", "DESIGN.md §5 C10"),
  'C15': ("generated multi-threaded programs (op sequences over shared zones; sequential vs reversed / permuted / 2-16 threads / child process with perturbed environment) with per-op result digests; compile-time auto-trait + Freeze assertions; auxiliary (non-PBT) static audit",
          "Exploration of the observable half: every operation of each generated program must return, in any order, on any of 2..16 concurrently running threads sharing the zones by reference, and in a process with TZ/TZDIR/LANG/cwd changed, exactly what it returns in the plain sequential run (digest of the complete Debug rendering). Settings operations use four virtual file systems giving the same names different contents, so a cache keyed on too little collides. Compile-time: Send + Sync + 'static + Freeze for every public type, in each of the three feature configurations of tz-rs. The schedule is the OS's: rare interleavings and behaviour-preserving global state are out of reach; an auxiliary symbol/token audit (labelled non-PBT) covers the latter.",
